@@ -20,7 +20,7 @@ SPEC = {
     "classes": {1: "f32-overflow-accepted-as-infinity", 2: "id-rejects-integer-above-i64-max",
                 3: "float-nonfinite-not-roundtrip"},
     "allowed_axioms": frozenset(),
-    "n_quick": 1600, "n_thorough": 40000,
+    "n_quick": 1600, "n_thorough": 6400,
     "level": "proof",
     "what_violation": "a built-in scalar accepts a value outside its domain, rejects one inside it, or does not round-trip",
     "rule": ("every value kind (absent, null, boundary integers, float classes, strings, booleans, binary, enum names, lists, "
